@@ -1,6 +1,8 @@
 package main
 
 import (
+	"io"
+	"errors"
 	"time"
 	"context"
 	"encoding/json"
@@ -272,6 +274,27 @@ func (st *c16st) step(op *Sexp) string {
 		st.heapCmp = a[0].Atom
 		st.heap = &dt.Heap[int]{LT: c16lt(a[0].Atom)}
 		return "ok"
+	case "heapfrom":
+		st.heapCmp = a[0].Atom
+		vals, k := intsOfList(a[1]), a[2].Int()
+		idx := -1
+		injected := errors.New("source failed")
+		it := fun.Generator(func(ctx context.Context) (int, error) {
+			idx++
+			if idx >= k && k < len(vals) {
+				return 0, injected
+			}
+			if idx >= len(vals) {
+				return 0, io.EOF
+			}
+			return vals[idx], nil
+		})
+		h, err := dt.NewHeapFromIterator(context.Background(), c16lt(a[0].Atom), it)
+		st.heap = h
+		if err != nil {
+			return "err"
+		}
+		return "ok"
 	case "hpush":
 		st.heap.Push(a[0].Int())
 		return "ok"
@@ -400,4 +423,12 @@ func c16byteInstance(doc []byte, stack bool) string {
 		return "the uint8 instance round-trips to " + string(back) + " but the sequence is " + want
 	}
 	return ""
+}
+
+func intsOfList(x *Sexp) []int {
+	out := []int{}
+	for _, e := range x.List {
+		out = append(out, e.Int())
+	}
+	return out
 }
